@@ -643,7 +643,11 @@ def run(ctx):
         broken.append({"correspondence": "h_fwdadm vs generated/hand model", "first_disagreements": dis[:5], "n": len(dis)})
     if tmism:
         broken.append({"correspondence": "h_fwd traces vs Model/Fwd.v", "first_disagreements": tmism[:3], "n": len(tmism)})
-    for f in fails[:3]:
+    seen_fn = set()
+    for f in fails:
+        if f["function"] in seen_fn:
+            continue
+        seen_fn.add(f["function"])
         ctx.violation("C02 admission fails on the implementation: %s: %s" % (f["function"], f["why"]),
                       {"broken": broken or "implementation-side judge", "failing_input": f,
                        "replay_cmd": "printf '%s\\n' | %s | grep '^R '" % ("\\n".join(f.get("lines", [f.get("line", "")])), ctx.bin_path("h_fwdadm"))},
@@ -673,16 +677,32 @@ def run(ctx):
 
 
 def replay(ctx, rep):
-    print(json.dumps(rep, indent=1))
-    f = rep.get("failing_input")
-    if not f:
-        return 0
-    ok_build, out = ctx.build_harness(["h_fwdadm"])
+    """Re-runs a recorded failing input on the implementation and prints what the judges say."""
+    print(json.dumps(dict((k, v) for k, v in rep.items() if k != "trace_tail"), indent=1)[:6000])
+    ok_build, out = ctx.build_harness(BINS)
     if not ok_build:
         print("harness does not build")
         return 1
+    if "scenario_index" in rep:
+        from props.c02 import fwdjudge as J
+        idx = int(rep["scenario_index"])
+        outp = os.path.join(ctx.tmp, "replay_%d.trace" % idx)
+        if idx < 0:
+            core.sh([ctx.bin_path("h_fwd"), "script1", "7", "0", outp], cwd=ctx.tmp, timeout=600)
+            idx = 0
+        else:
+            core.sh([ctx.bin_path("h_fwd"), "one", str(rep.get("seed", ctx.seed)), str(idx), outp], cwd=ctx.tmp, timeout=600)
+        sc = J.parse(outp)
+        V, F = J.judge(sc.get(idx, []))
+        for l in open(outp, errors="replace"):
+            if " PERSISTFULL " not in l and " MGRPERSIST " not in l and not re.search(r"BLOCK height=\d+ txs=$", l.rstrip()):
+                print(l.rstrip()[:300])
+        print("judges:", json.dumps(V, indent=1))
+        return 1 if V else 0
+    f = rep.get("failing_input")
+    if not f:
+        return 0
     lines = f.get("lines") or [f.get("line", "")]
     rc, out = ctx.run_bin("h_fwdadm", "\n".join(lines) + "\n")
-    res = [l for l in out if l.startswith("R ")]
-    print("\n".join(res))
+    print("\n".join(l for l in out if l.startswith("R ")))
     return 0
